@@ -232,6 +232,20 @@ def shard(P, ver, idx, nshards, n, seed):
                     P.stratum("v%s:%s:sort=%s:minimal=%s" % (ver, "official-order" if order == "official" else "random-order", sort, minimal))
                     check_json(P, ver, p, s, sort, minimal, o, tuple(before))
                     before.append((sort, minimal))
+        if j % 23 == 0:
+            # near-misses of this vector (padding, case, separators ...): whatever the constructor
+            # ACCEPTS is an accepted vector and its JSON must validate as well
+            fields = T.parse(ver, s)[1]
+            for op, ms in V.field_mutants(ver, p, fields, rng2):
+                if op in ("pad", "lower", "upper", "lower-all", "upper-all", "space-end", "space-start", "tab-end", "newline-end",
+                          "newline-start", "trailing-slash", "leading-slash", "double-slash", "nul-end", "prefix-variant"):
+                    ok, o2 = obs.call(lib().CLS[ver], ms)
+                    if ok:
+                        P.stratum("accepted-near-miss-judged")
+                        # schema of the version the STRING claims (a prefix variant may be a valid
+                        # vector of the other minor version); the original one if it claims none
+                        p2 = T.split_prefix(ver, ms.strip())[0]
+                        check_json(P, ver, p2 if p2 is not None else p, ms, True, False, o2)
         if j % 499 == 0:
             P.sample({"ver": ver, "vector": s, "sort": True, "minimal": False})
 
